@@ -208,8 +208,29 @@ fn judge(ctx: &mut Ctx, e: &Expr, family: &str) {
     if skipped > 0 {
         ctx.hit("histories-with-unreached-calls");
     }
-    let hist = diff_log(&res.log, &pred.invocations);
-    let outcome = compare(&pred.outcomes[0].1, &res.outcomes[0].1);
+    let mut hist = diff_log(&res.log, &pred.invocations);
+    let mut outcome = compare(&pred.outcomes[0].1, &res.outcomes[0].1);
+    let mut res = res;
+    // the same with every function suspending once before it answers: the history must not change
+    if hist.is_none() && outcome.is_none() && count_calls(e) >= 2 {
+        crate::instr::EXTRA_SUSPEND.store(1, std::sync::atomic::Ordering::Relaxed);
+        let again = fx.eval(&facts, 2);
+        crate::instr::EXTRA_SUSPEND.store(0, std::sync::atomic::Ordering::Relaxed);
+        match again {
+            Ok(r) => {
+                ctx.hit("histories-replayed-with-suspending-functions");
+                hist = diff_log(&r.log, &pred.invocations).map(|d| format!("{d} (when every function suspends once)"));
+                outcome = compare(&pred.outcomes[0].1, &r.outcomes[0].1);
+                if hist.is_some() || outcome.is_some() {
+                    res = r;
+                }
+            }
+            Err(p) => {
+                ctx.violation(format!("C05 evaluation-failed {}", kind(e)), p, json!({"expr": show_expr(e), "suspending": true}));
+                return;
+            }
+        }
+    }
     if hist.is_none() && outcome.is_none() {
         ctx.sample(&format!("agree:{family}:{}", kind(e)), || json!({"expr": show_expr(e), "invocations": show_log(&res.log), "outcome": show_obs(&res.outcomes[0].1)}));
         return;
@@ -402,6 +423,39 @@ fn run(ctx: &mut Ctx) {
             chain = Expr::iif(ids.leaf(if k == 7 { "t" } else { "f" }), ids.leaf("v"), chain);
         }
         judge(ctx, &chain, "wide-strict-constructs");
+    }
+    // a failing NON-call operand to the left of a call in every strict construct: the first error ends the evaluation, the call is never made
+    {
+        let bombs = || vec![Expr::reff("no_such_field"), Expr::symbol("no_such_symbol"), Expr::div(Expr::value(1), Expr::value(0)), Expr::int(Expr::value("x".to_string())), Expr::func("no_such_function", Expr::value(1)), Expr::add(Expr::value(1), Expr::value("s".to_string())), Expr::index(Expr::value(5), Index::from(0usize))];
+        for (op, ar) in OPS {
+            if ar < 2 || ["if", "and", "or"].contains(&op) {
+                continue;
+            }
+            for bomb in bombs() {
+                for l in ["v", "e", "n"] {
+                    if !ctx.mine() {
+                        continue;
+                    }
+                    let mut cs = vec![bomb.clone()];
+                    for _ in 1..ar {
+                        cs.push(ids.leaf(l));
+                    }
+                    judge(ctx, &mk(op, cs), "failing-non-call-operand-before-a-call");
+                    // and in the middle: call, bomb, call
+                    if ar == 3 {
+                        judge(ctx, &mk(op, vec![ids.leaf(l), bomb.clone(), ids.leaf(l)]), "failing-non-call-operand-before-a-call");
+                    }
+                }
+            }
+        }
+        for bomb in bombs() {
+            if !ctx.mine() {
+                continue;
+            }
+            judge(ctx, &Expr::func("v", Expr::Vec(vec![bomb.clone(), ids.leaf("v")])), "failing-non-call-operand-before-a-call");
+            judge(ctx, &Expr::index(Expr::Vec(vec![bomb.clone(), ids.leaf("v")]), Index::from(1usize)), "failing-non-call-operand-before-a-call");
+            judge(ctx, &Expr::iif(Expr::eq(bomb.clone(), ids.leaf("v")), ids.leaf("v"), ids.leaf("v")), "failing-non-call-operand-before-a-call");
+        }
     }
     // unreached positions holding constant sub-expressions that fail if evaluated (nothing to log — the
     // outcome shows it): literal division by zero, a bad cast, a type error, an unknown reference
